@@ -126,7 +126,7 @@ class Unchanged:
 def sg_ops(st, hist):
     tier_menu = sg_ops.menu
     ops = [{"op": "add", "g": i} for i in tier_menu]
-    ops += [{"op": o} for o in ("cadd_S1", "radd_S1", "cadd_S2", "mul2", "rmul2", "copy", "inverse", "trim", "reindex",
+    ops += [{"op": o} for o in ("cadd_S1", "radd_S1", "cadd_S2", "mul1", "mul2", "rmul2", "copy", "inverse", "trim", "reindex",
                                 "split_first", "split_last", "stack_S1", "stack_self",
                                 "ip_small", "ip_merge", "ip_redundant", "ip_simplify",
                                 "fn_small", "fn_merge", "fn_redundant", "fn_simplify", "fn_small_rq",
@@ -174,6 +174,12 @@ def sg_step(st, op, acc, hist):
             r = fn()
         if r is None:
             return st  # operation raised: state unchanged (checked by Unchanged)
+        # an out-of-place operation returns a NEW circuit sharing no gate object with its operands (a later in-place operation on the
+        # result must not reach back into an operand)
+        for o in operands:
+            if r is o or ({id(g) for g in r._gates} & {id(g) for g in o._gates}):
+                viol(acc, hist, f"{name}/result-aliases-operand", {"same_object": r is o})
+                break
         return changed(St(r, fixed_after))
 
     if k == "cadd_S1":
@@ -182,6 +188,8 @@ def sg_step(st, op, acc, hist):
         return out_of_place("add", lambda: st.S1 + c, [c, st.S1], st.fixed)
     if k == "cadd_S2":
         return out_of_place("add", lambda: c + st.S2, [c, st.S2], True)
+    if k == "mul1":
+        return out_of_place("mul", lambda: c * 1, [c], st.fixed)
     if k == "mul2":
         return out_of_place("mul", lambda: c * 2, [c], st.fixed)
     if k == "rmul2":
